@@ -94,8 +94,6 @@ def run_cases(tag, cases, prelude='', imports='Model.All', shard=300, timeout=90
     shutil.rmtree(d, ignore_errors=True)
     os.makedirs(d)
     head = f'From KV Require Import {imports}.\nOpen Scope Z_scope.\n{prelude}\n'
-    shards = [cases[i:i + shard] for i in range(0, len(cases), shard)]
-    paths = []
     def defs_of(sh):
         seen, out = set(), []
         for c in sh:
@@ -104,19 +102,27 @@ def run_cases(tag, cases, prelude='', imports='Model.All', shard=300, timeout=90
                     seen.add(dfn)
                     out.append(dfn)
         return '\n'.join(out) + '\n'
-    for si, sh in enumerate(shards):
-        p = os.path.join(d, f's{si}.v')
+    def run_shard(name, idxs):
+        # -> global indices of failing cases; a shard that exceeds the time limit is split in two and retried (one slow case must
+        # not hide the verdicts of the others); a single case that exceeds it is a machinery error
+        sh = [cases[i] for i in idxs]
+        p = os.path.join(d, f'{name}.v')
         with open(p, 'w') as f:
             f.write(head + defs_of(sh))
             f.write('Definition verdicts : list bool := [\n')
             f.write(';\n'.join(f'  ({c["check"]})' for c in sh))
             f.write('\n].\nEval vm_compute in (false_idx verdicts).\n')
-        paths.append(p)
+        try:
+            return [idxs[i] for i in _parse_natlist(_coqc(p, timeout))]
+        except MachineryError as e:
+            if 'timed out' not in str(e) or len(idxs) == 1:
+                raise
+            h = len(idxs) // 2
+            return run_shard(name + 'a', idxs[:h]) + run_shard(name + 'b', idxs[h:])
+    groups = [list(range(i, min(i + shard, len(cases)))) for i in range(0, len(cases), shard)]
     with ThreadPoolExecutor(JOBS) as ex:
-        outs = list(ex.map(lambda p: _coqc(p, timeout), paths))
-    bad = []
-    for si, out in enumerate(outs):
-        bad += [si * shard + i for i in _parse_natlist(out)]
+        outs = list(ex.map(lambda t: run_shard(f's{t[0]}', t[1]), enumerate(groups)))
+    bad = sorted(i for o in outs for i in o)
     shown = {}
     for i in bad[:5]:
         if cases[i].get('show'):
